@@ -749,7 +749,7 @@ class C17(Prop):
         'the peer is conforming: control payloads <= 125 bytes, valid UTF-8 text, client frames masked, server frames unmasked',
     )
     fast = False  # the atheris campaign skips the per-byte single cuts (coverage feedback picks the cuts)
-    budget = {'quick': (500, 4), 'thorough': (4000, 16)}
+    budget = {'quick': (500, 4), 'thorough': (12000, 16)}
 
     def setup(self):
         driver.quiet_process()
